@@ -295,6 +295,7 @@ impl TableSpec {
             "L2i" => lattice_table(&self.name, false, false),
             "L2s" => lattice_table(&self.name, true, false),
             "L2i21" => lattice_table(&self.name, false, true),
+            "L3i" => lattice_table_m(&self.name, false, false, 4),
             k => panic!("unknown table kind {k}"),
         }
     }
@@ -302,6 +303,7 @@ impl TableSpec {
         let mag = match self.kind.as_str() {
             "P" | "PS" => self.scale,
             "L2s" => 0.274,
+            "L3i" => 3.0,
             _ => 2.0,
         };
         if ft == Ft::F32 || self.f32 {
@@ -314,9 +316,14 @@ impl TableSpec {
 
 /// all 76 non-degenerate triangles over {0,1,2}^2 (optionally sheared), optionally two-part operands first
 pub fn lattice_table(name: &str, shear: bool, twopart: bool) -> Table {
+    lattice_table_m(name, shear, twopart, 3)
+}
+
+/// `m` lattice points per side
+pub fn lattice_table_m(name: &str, shear: bool, twopart: bool, m: usize) -> Table {
     let mut pts: Vec<P> = vec![];
-    for y in 0..3 {
-        for x in 0..3 {
+    for y in 0..m {
+        for x in 0..m {
             let (x, y) = (x as f64, y as f64);
             pts.push(if shear {
                 (0.1 * x + 0.037 * y, 0.1 * y)
@@ -333,10 +340,10 @@ pub fn lattice_table(name: &str, shear: bool, twopart: bool) -> Table {
     };
     let mut tris = vec![];
     // orientation decided on the integer lattice (the shear preserves it)
-    let ip = |i: usize| ((i % 3) as f64, (i / 3) as f64);
-    for i in 0..9 {
-        for j in i + 1..9 {
-            for k in j + 1..9 {
+    let ip = |i: usize| ((i % m) as f64, (i / m) as f64);
+    for i in 0..m * m {
+        for j in i + 1..m * m {
+            for k in j + 1..m * m {
                 let o = orient(ip(i), ip(j), ip(k));
                 if o != 0.0 {
                     tris.push(if o > 0.0 {
@@ -919,6 +926,10 @@ pub fn run(prop: &str, tier: &str) -> i32 {
     sweep_table(&st, prop, &spike_spec(seed), Ft::F64, &want, PairSet::WithTriangle);
     sweep_table(&st, prop, &l_spec("L2i"), Ft::F64, &want, PairSet::All);
     sweep_table(&st, prop, &l_spec("L2s"), Ft::F64, &want, PairSet::All);
+    // all 516 lattice triangles over {0..3}^2: 266 256 ordered pairs; about 0.04 % of the calls fail on the
+    // unchanged tree (N1), listed individually — the family is kept because it is the only one in which a
+    // vertex lies exactly on an edge that was split earlier in a non-representable point (seed S36)
+    sweep_table(&st, prop, &l_spec("L3i"), Ft::F64, &want, PairSet::All);
     if thorough {
         sweep_table(
             &st,
